@@ -93,7 +93,7 @@ func runC07(ctx *core.Ctx, idx int) *core.Result {
 			files = append(files, fi{"d_other.go", g.File(gen.FileOpts{}), false})
 		}
 	} else {
-		c := g.RandomChange()
+		c := g.RandomChangeWide()
 		pt, class = c.PatchText(), "random:"+c.Schema
 		for f := 0; f < 3; f++ {
 			plants, _ := g.InstancePlants(c, 1+r.Intn(3), r.Intn(2))
